@@ -956,6 +956,22 @@ fn string_parsers(rep: &Reporter) -> u64 {
     n
 }
 
+/// Failure class of a document: loader | seed class | deviation | path class | verdict.
+fn doc_signature(loader: Loader, seedname: &str, op: &str, class: &str, second: Option<&(String, String)>, symptom: &str) -> String {
+    let seedclass = seedname.split(':').next().unwrap_or("");
+    if loader == Loader::StoreCbor {
+        // binary input: neither the bit nor the position within the file is part of the failure class (the position
+        // moves with every path embedded in the file); both are in the detail and in the replay file
+        let kind = if op.starts_with("bitflip") { "bitflip" } else if op.starts_with("byte:=") { "byte-set" } else { op };
+        format!("{}|{}|{}|{}", loader.name(), seedclass, kind, symptom)
+    } else if let Some((op2, class2)) = second {
+        // judged as a failure of the second deviation (same class as when that deviation is the only one)
+        format!("{}|{}|{}|{}|{}", loader.name(), seedclass, op2, class2, symptom)
+    } else {
+        format!("{}|{}|{}|{}|{}", loader.name(), seedclass, op, class, symptom)
+    }
+}
+
 pub fn run(rep: &Reporter) -> Coverage {
     let dir = crate::util::work_dir("c19");
     let _ = std::fs::remove_dir_all(&dir);
@@ -1037,18 +1053,7 @@ pub fn run(rep: &Reporter) -> Coverage {
                     let seed_broken = doc.deviations == 0 && verdict != "ok" && !seed.name.starts_with("include:");
                     if bad || seed_broken {
                         let symptom = if seed_broken && !bad { "unchanged-seed-rejected".to_string() } else { verdict.clone() };
-                        let seedclass = seed.name.split(':').next().unwrap_or("").to_string();
-                        // binary input: neither the bit nor the position within the file is part of the failure class (the position
-                        // moves with every path embedded in the file); both are in the detail and in the replay file
-                        let sig = if seed.loader == Loader::StoreCbor {
-                            let kind = if doc.op.starts_with("bitflip") { "bitflip" } else if doc.op.starts_with("byte:=") { "byte-set" } else { doc.op.as_str() };
-                            format!("{}|{}|{}|{}", seed.loader.name(), seedclass, kind, symptom)
-                        } else if let Some((op2, class2)) = &doc.second {
-                            // judged as a failure of the second deviation (same class as when that deviation is the only one)
-                            format!("{}|{}|{}|{}|{}", seed.loader.name(), seedclass, op2, class2, symptom)
-                        } else {
-                            format!("{}|{}|{}|{}|{}", seed.loader.name(), seedclass, doc.op, doc.class, symptom)
-                        };
+                        let sig = doc_signature(seed.loader, &seed.name, &doc.op, &doc.class, doc.second.as_ref(), &symptom);
                         let preview: String = if seed.loader == Loader::StoreCbor {
                             format!("<{} bytes of CBOR, see document_hex in the replay file>", doc.bytes.len())
                         } else {
@@ -1060,6 +1065,7 @@ pub fn run(rep: &Reporter) -> Coverage {
                             || format!("seed {} mutation {} at {}: loader verdict {} -- document: {}", seed.name, doc.op, doc.class, verdict, preview),
                             || {
                                 json!({"loader": seed.loader.name(), "seed": seed.name, "mutation": doc.op, "path": doc.class,
+                                    "second": doc.second.as_ref().map(|(o, c)| json!([o, c])),
                                     "document_hex": doc.bytes.iter().map(|b| format!("{:02x}", b)).collect::<String>(),
                                     "filename": seed.filename,
                                     "aux": seed.aux.iter().map(|(n, c)| json!({"name": n, "hex": c.iter().map(|b| format!("{:02x}", b)).collect::<String>()})).collect::<Vec<_>>()})
@@ -1125,7 +1131,9 @@ pub fn replay(rep: &Reporter, case: &Value) {
     let _ = w.child.kill();
     println!("replay C19: loader={} seed={} mutation={} at {} -> verdict {}", loader.name(), case["seed"], case["mutation"], case["path"], verdict);
     if !(verdict == "ok" || verdict == "err") {
-        rep.fail(&format!("{}|replay|{}", loader.name(), verdict), 0, || verdict.clone(), || case.clone());
+        let second: Option<(String, String)> = case["second"].as_array().and_then(|a| Some((a.first()?.as_str()?.to_string(), a.get(1)?.as_str()?.to_string())));
+        let sig = doc_signature(loader, case["seed"].as_str().unwrap_or(""), case["mutation"].as_str().unwrap_or(""), case["path"].as_str().unwrap_or(""), second.as_ref(), &verdict);
+        rep.fail(&sig, 0, || verdict.clone(), || case.clone());
     }
     let _ = std::fs::remove_dir_all(&dir);
 }
